@@ -376,7 +376,12 @@ class MiniEval:
                 lo = self.expr(e.slice.lower, env) if e.slice.lower else None
                 hi = self.expr(e.slice.upper, env) if e.slice.upper else None
                 return v[lo:hi]
-            return v[self.expr(e.slice, env)]
+            try:
+                return v[self.expr(e.slice, env)]
+            except (KeyError, IndexError) as ex:
+                if type(v) in (dict, list, tuple, str) or isinstance(v, (dict, list)):
+                    raise Raised(type(ex).__name__, e) from None  # the interpreted program raises
+                raise
         if isinstance(e, ast.Starred):
             raise Unsupported('starred outside display')
         if isinstance(e, ast.Call):
